@@ -33,12 +33,20 @@ pub(crate) mod kani_verif {
         if kani::any() {
             return Err(());
         }
+        // used-leaf vector exactly as the contract of HssPrivateKey::from states it (c03_from_*): digit i of the counter,
+        // plus one on the levels that have signed a child public key
+        let digits = private_key.compressed_used_leafs_indexes.to(&parameters);
+        let levels = parameters.len();
         let mut k: HssPrivateKey<H> = Default::default();
-        for p in parameters.iter() {
+        for (i, p) in parameters.iter().enumerate() {
+            let used = digits[i] + if i + 1 < levels { 1 } else { 0 };
+            if used as usize > p.get_lms_parameter().number_of_lm_ots_keys() {
+                return Err(()); // a counter beyond the key's lifetime cannot be expanded
+            }
             k.private_key.push(LmsPrivateKey::new(
                 Seed::default(),
                 [0u8; ILEN],
-                0,
+                used,
                 *p.get_lmots_parameter(),
                 *p.get_lms_parameter(),
             ));
@@ -447,5 +455,49 @@ pub(crate) mod kani_verif {
         check_sign_mut::<16>();
         check_sign_mut::<17>();
         check_sign_mut::<40>();
+    }
+
+    // ------------------------------------------------------------------ C04: the public wrapper hss_sign adds nothing to the protocol
+    static CORE2_CALLS: AtomicU32 = AtomicU32::new(0);
+    /// contract stub of hss_sign_core (what c04_core_* prove): at most one callback invocation, Ok only if it accepted
+    pub fn stub_sign_core_protocol<H: HashChain>(
+        message: Option<&[u8]>,
+        message_mut: Option<&mut [u8]>,
+        private_key: &[u8],
+        private_key_update_function: &mut dyn FnMut(&[u8]) -> Result<(), ()>,
+        _aux_data: Option<&mut &mut [u8]>,
+    ) -> Result<Signature, Error> {
+        CORE2_CALLS.fetch_add(1, Ordering::Relaxed);
+        assert!(message.is_some() && message_mut.is_none() && private_key.len() == KEYLEN, "arguments passed through unchanged");
+        if kani::any() {
+            return Err(Error::new());
+        }
+        let newk: [u8; KEYLEN] = kani::any();
+        private_key_update_function(&newk).map_err(|_| Error::new())?;
+        Signature::from_bytes_verbose(&[9u8, 9], 0)
+    }
+    // @h props=C04,C09 tier=quick kind=proved cfg=L2w8 timeout=1200 funcs=hss_sign contract="hss_sign == hss_sign_core(Some(msg), None, ..): one call of the core, the caller's callback is invoked exactly as often as the core invokes the one it is given (never retried), Ok only if the callback accepted; core by contract"
+    #[kani::proof]
+    #[kani::stub(<[u8; 32] as tinyvec::Array>::default, fast_default)]
+    #[kani::stub(crate::hss::hss_sign_core, stub_sign_core_protocol)]
+    #[kani::unwind(40)]
+    fn c04_hss_sign_wrapper() {
+        CORE2_CALLS.store(0, Ordering::Relaxed);
+        reset_counters();
+        let blob: [u8; KEYLEN] = kani::any();
+        let msg: [u8; 3] = kani::any();
+        let cb_ok: bool = kani::any();
+        let mut cb = |_k: &[u8]| -> Result<(), ()> {
+            CB_CALLS.fetch_add(1, Ordering::Relaxed);
+            if cb_ok { Ok(()) } else { Err(()) }
+        };
+        let r = hss_sign::<H>(&msg, &blob, &mut cb, None);
+        let calls = CB_CALLS.load(Ordering::Relaxed);
+        assert!(CORE2_CALLS.load(Ordering::Relaxed) == 1, "exactly one run of the signing core");
+        assert!(calls <= 1, "callback never invoked more than once (no retry)");
+        assert!(!r.is_ok() || (calls == 1 && cb_ok), "signature only after an accepted callback");
+        assert!(!(calls == 1 && !cb_ok) || r.is_err(), "rejected callback => no signature");
+        kani::cover!(r.is_ok(), "success reachable");
+        kani::cover!(calls == 1 && !cb_ok, "rejection reachable");
     }
 }
